@@ -21,7 +21,8 @@ SHARD = 150
 RULE = ('case = (training context [formal table | many-valued table of interval columns], lattice builder in '
         '{CbO, Lindig, Sofia(L_max), sub-list keeping top and bottom}, optional edit history of the lattice between '
         'two traces, test context over the same attributes in {training, unseen random, rows satisfying only the top, '
-        'rows satisfying everything, mixed, resampled training rows}, key mode); non-trivial = lattice of >= 4 '
+        'rows satisfying everything, mixed, resampled training rows, the training objects RE-DESCRIBED (same names, rows '
+        'exchanged / permuted: hash_fixed may collide with the training context, finding D18)}, key mode); non-trivial = lattice of >= 4 '
         'concepts, test context with >= 2 distinct rows, some object is traced to a proper non-empty subset of '
         'the concepts')
 EXHAUSTIVE = {'thorough': 'all 2x3 and 3x2 training tables x CbO lattice x all test tables with 2 rows over the '
@@ -46,6 +47,9 @@ def make_context(case, which):
     """which = 'train' | 'test'"""
     data = case[which]
     names = ['o%d' % k for k in case['names']] if which == 'test' else None
+    if which == 'train' and case.get('share_names') and len(case['train']) == len(case['names']):
+        # "the same objects, re-described": training and traced context have the same object names
+        names = ['o%d' % k for k in case['names']]
     if case.get('mv'):
         from fcapy.mvcontext import MVContext, pattern_structure as PS
         w = len(case['engines'])
@@ -84,11 +88,13 @@ def apply_history(case, L, K, Kt):
         kind = op[0]
         n = len(L)
         inner = [i for i in range(n) if i not in (L.top, L.bottom)]
+        fill = not kind.endswith('_nofill')        # L.add(c, fill_up_cache=False): caches dropped, refilled lazily
+        kind = kind.replace('_nofill', '')
         if kind == 'readd' and inner:              # take a concept out and put it back (indexes shift)
             i = inner[op[1] % len(inner)]
             c = L[i]
             del L[i]
-            L.add(c)
+            L.add(c, fill_up_cache=fill)
         elif kind in ('swap', 'add_del', 'add'):
             if full is None:
                 full = list(ConceptLattice.from_context(K, algo='CbO'))
@@ -99,12 +105,12 @@ def apply_history(case, L, K, Kt):
             new = other[op[2] % len(other)]
             if kind == 'swap' and inner:            # another concept of the complete lattice instead of this one
                 del L[inner[op[1] % len(inner)]]
-                L.add(new)
+                L.add(new, fill_up_cache=fill)
             elif kind == 'add_del' and inner:       # add first, then delete an old one
-                L.add(new)
+                L.add(new, fill_up_cache=fill)
                 L.remove(have[inner[op[1] % len(inner)]])
             elif kind == 'add':
-                L.add(new)
+                L.add(new, fill_up_cache=fill)
         elif kind == 'del' and inner:
             del L[inner[op[1] % len(inner)]]
         if op[-1] == 'trace':                      # an intermediate look at the lattice
@@ -207,8 +213,8 @@ def to_coq(case, out):
 # ------------------------------------------------------------------ generation
 
 def _mk(train, algo, test, names, by_index, L_max=100, keep=None, mono=False, kind='', test_kind='',
-        mv=False, engines=None, history=None):
-    return {'train': train, 'algo': algo, 'L_max': L_max, 'keep': keep or [], 'mono': mono, 'test': test,
+        mv=False, engines=None, history=None, share_names=False):
+    return {'share_names': share_names, 'train': train, 'algo': algo, 'L_max': L_max, 'keep': keep or [], 'mono': mono, 'test': test,
             'names': names, 'by_index': by_index, 'kind': kind, 'test_kind': test_kind, 'mv': mv,
             'engines': engines or [], 'history': history or []}
 
@@ -245,10 +251,64 @@ def train_table(rng, max_dim):
     return best
 
 
+# pairs of different tables whose FormalContext.hash_fixed (adler32 of a rendering) is the same: finding D18 of C08
+COLLIDING_TABLES = [
+    [[[False, True, True, False]], [[True, False, False, True]]],
+    [[[False, True], [True, False]], [[True, False], [False, True]]],
+    [[[False, False, True, True, False]], [[False, True, False, False, True]]],
+    [[[False, True, False, True, False]], [[True, False, False, False, True]]],
+    [[[False, True, True, False, True]], [[True, False, False, True, True]]],
+    [[[False, False, True], [False, True, False]], [[False, True, False], [False, False, True]]],
+    [[[False, False, True], [True, False, True]], [[False, True, False], [False, True, True]]],
+    [[[False, False, True], [True, True, False]], [[False, True, False], [True, False, True]]],
+    [[[False, False], [False, True], [True, False]], [[False, False], [True, False], [False, True]]],
+    [[[False, False], [True, True], [False, True]], [[False, True], [False, False], [True, True]]],
+    [[[False, False], [True, True], [True, False]], [[True, False], [False, False], [True, True]]],
+    [[[False, False, True, True, False, True]], [[False, True, False, False, True, True]]],
+]
+
+
+def redescribed(rng, train):
+    """The training objects, re-described: same object names, same multiset of rows (or of cross counts), but
+    not the same table.  hash_fixed() of such a context may equal the training context's (adler32 is blind to
+    exchanging two rows with equally many crosses); trace_context must not care.  Returns (rows, kind) or None."""
+    h = len(train)
+    rows = [list(r) for r in train]
+    mode = rng.choice(['swap_equal_count', 'swap_equal_count', 'perm_rows', 'perm_in_count_classes'])
+    if mode == 'swap_equal_count':
+        pairs = [(i, j) for i in range(h) for j in range(i) if sum(rows[i]) == sum(rows[j]) and rows[i] != rows[j]]
+        if not pairs:
+            mode = 'perm_rows'
+        else:
+            i, j = rng.choice(pairs)
+            rows[i], rows[j] = rows[j], rows[i]
+    if mode == 'perm_in_count_classes':
+        by = {}
+        for i, r in enumerate(rows):
+            by.setdefault(sum(r), []).append(i)
+        new = [None] * h
+        for idxs in by.values():
+            sh = list(idxs)
+            rng.shuffle(sh)
+            for a, b in zip(idxs, sh):
+                new[a] = rows[b]
+        rows = new
+    if mode == 'perm_rows':
+        rng.shuffle(rows)
+    if rows == [list(r) for r in train]:
+        return None
+    return rows, 'redescribed:' + mode
+
+
 def test_table(rng, train, max_h):
     w = len(train[0])
     kind = rng.choice(['training', 'unseen', 'unseen', 'unseen', 'all_false', 'all_true', 'mixed', 'mixed',
-                       'train_rows_shuffled'])
+                       'train_rows_shuffled', 'redescribed', 'redescribed'])
+    if kind == 'redescribed':
+        r = redescribed(rng, train)
+        if r is not None:
+            return r
+        kind = 'training'
     if kind == 'training':
         return [list(r) for r in train], kind
     if kind == 'train_rows_shuffled':
@@ -272,7 +332,9 @@ def test_table(rng, train, max_h):
 def random_history(rng):
     ops = []
     for _ in range(rng.choice([1, 1, 1, 2, 3])):
-        kind = rng.choice(['readd', 'readd', 'swap', 'swap', 'add_del', 'add', 'del'])
+        kind = rng.choice(['readd', 'readd', 'swap', 'swap', 'add_del', 'add', 'add', 'del'])
+        if kind != 'del' and rng.random() < 0.45:
+            kind += '_nofill'
         op = [kind, rng.randrange(50), rng.randrange(50)]
         if rng.random() < 0.3:
             op.append('trace')
@@ -292,9 +354,18 @@ def random_case(rng, max_dim, history=False):
     if rng.random() < 0.02 and not history:
         mono = True
     test, tk = test_table(rng, train, max_dim + 1)
+    if rng.random() < 0.04 and not history:
+        # a pair of different contexts from C08's list of adler32 collisions, traced one through the other
+        ta, tb = rng.choice(COLLIDING_TABLES)
+        if rng.random() < 0.5:
+            ta, tb = tb, ta
+        train, test, tk, kind = [list(r) for r in ta], [list(r) for r in tb], 'redescribed:D18-collision', 'collide'
+        algo, keep, L_max = rng.choice(['CbO', 'Lindig', 'Sofia']), None, 100
     names = rng.sample(range(60), len(test))
     hist = random_history(rng) if history else None
-    return _mk(train, algo, test, names, rng.random() < 0.5, L_max, keep, mono, kind, tk, history=hist)
+    share = tk.startswith('redescribed') or (tk == 'training' and rng.random() < 0.5)
+    return _mk(train, algo, test, names, rng.random() < 0.5, L_max, keep, mono, kind, tk, history=hist,
+               share_names=share)
 
 
 # ---- many-valued
@@ -332,10 +403,20 @@ def mv_extents(rows):
 def mv_test(rng, train, vmax, max_h):
     w = len(train[0])
     kind = rng.choice(['training', 'unseen', 'unseen', 'unseen', 'only_top', 'everything', 'mixed', 'mixed',
-                       'train_rows_shuffled', 'outside'])
+                       'train_rows_shuffled', 'outside', 'redescribed', 'redescribed'])
     copy = lambda r: [list(v) if isinstance(v, list) else v for v in r]
     iv = lambda v: (v[0], v[1]) if isinstance(v, list) else (v, v)
-    if kind == 'training':
+    if kind == 'redescribed':
+        # same objects, rows exchanged; rows whose renderings have the same length and digit sum collide under adler32
+        rows = [copy(r) for r in train]
+        sig = lambda r: sorted(str(sorted(x for v in r for x in iv(v))))
+        pairs = [(i, j) for i in range(len(rows)) for j in range(i) if rows[i] != rows[j]]
+        good = [(i, j) for i, j in pairs if sig(rows[i]) == sig(rows[j])]
+        if good or pairs:
+            i, j = rng.choice(good or pairs)
+            rows[i], rows[j] = rows[j], rows[i]
+            return rows, 'redescribed:' + ('swap_same_digits' if good else 'swap_rows')
+        kind = 'training'
         return [copy(r) for r in train], kind
     if kind == 'train_rows_shuffled':
         return [copy(rng.choice(train)) for _ in range(rng.randint(1, max_h))], kind
@@ -381,8 +462,9 @@ def random_mv_case(rng, max_h, history=False):
     test, tk = mv_test(rng, train, vmax, max_h + 1)
     names = rng.sample(range(60), len(test))
     hist = random_history(rng) if history else None
+    share = tk.startswith('redescribed') or (tk == 'training' and rng.random() < 0.5)
     return _mk(train, algo, test, names, rng.random() < 0.5, L_max, keep, False, 'mv', tk, mv=True,
-               engines=engines, history=hist)
+               engines=engines, history=hist, share_names=share)
 
 
 def exhaustive_cases():
@@ -438,6 +520,7 @@ def stats(case):
         d['train_concepts'] = min(n_extents(case['train']), 20)
     for op in case.get('history') or []:
         d['history_op'] = op[0]
+    d['same_object_names'] = bool(case.get('share_names'))
     return d
 
 
